@@ -1,4 +1,6 @@
 import Chartparse.Proofs.ReFieldInv
+import Chartparse.Proofs.ReFieldAccept
+import Chartparse.Proofs.IntOf
 import Chartparse.Proofs.ReNorm
 import Chartparse.Proofs.MetaProofs
 /-! Property theorems of C10 (statements only; helper lemmas live in `Proofs/`). -/
@@ -109,10 +111,84 @@ theorem C10_required (lines : List Str) (h : ∀ l ∈ lines, (reOfField "resolu
   rw [parseField_absent lines _ h]
   rfl
 
+
+/-- what `gen_fields` gives for one member of the table -/
+theorem field_facts (f : String × Str × Nat × Gen.Default) (hf : f ∈ Gen.fields) :
+    ∃ a n, f.2.1 = a :: n ∧ CSet.space.test a = false ∧
+      ∀ s, (reOfField f.1).matchGroups s = (fieldRe (vsOf f.2.2.1) (a :: n)).matchGroups s := by
+  have hg := gen_fields
+  unfold fieldsOK at hg
+  simp only [Bool.and_eq_true, List.all_eq_true] at hg
+  obtain ⟨⟨⟨_, hnorm⟩, hname⟩, _⟩ := hg
+  have e := hnorm f hf
+  have n1 := hname f hf
+  simp only [beq_iff_eq] at e
+  cases hn : f.2.1 with
+  | nil => rw [hn] at n1; cases n1
+  | cons a n =>
+    rw [hn] at n1 e
+    simp only [Bool.and_eq_true, Bool.not_eq_true'] at n1
+    exact ⟨a, n, rfl, n1.1, fun s => by rw [matchGroups_of_norm_eq e]⟩
+
+/-- **C10, quoted values, every shipped field**: on the line `<blanks>Name = "<v>"<blanks>` the field's recogniser captures
+    `v` verbatim (for string fields `v` is arbitrary text — quotes, `=`, other field names, blanks, non-ASCII; for numeric
+    fields digits; for Player2 quote-free text) — one pair of surrounding quotes removed, nothing else -/
+theorem C10_quoted (f : String × Str × Nat × Gen.Default) (hf : f ∈ Gen.fields) (p v q : Str)
+    (hp : AllIn .space p) (hv : AllIn (vsOf f.2.2.1) v) (hv0 : v ≠ []) (hq : AllIn .space q) :
+    (reOfField f.1).matchGroups (p ++ (f.2.1 ++ [32, 61, 32] ++ (34 :: (v ++ (34 :: q))))) = some [(1, v)] := by
+  obtain ⟨a, n, hn, ha, he⟩ := field_facts f hf
+  rw [he, hn]; exact Chartparse.Rx.field_quoted_verbatim _ a n p v q ha hp hv hv0 hq
+
+/-- **C10, unquoted values, every shipped field**: `<blanks>Name = <v><blanks>` with a quote-free `v` not ending in a blank -/
+theorem C10_unquoted (f : String × Str × Nat × Gen.Default) (hf : f ∈ Gen.fields) (p v q : Str)
+    (hp : AllIn .space p) (hv : AllIn (vsOf f.2.2.1) v) (hv0 : v ≠ []) (hnq : ∀ x ∈ v, x ≠ 34)
+    (hlast : ∀ x, v.getLast? = some x → CSet.space.test x = false) (hq : AllIn .space q) :
+    (reOfField f.1).matchGroups (p ++ (f.2.1 ++ [32, 61, 32] ++ (v ++ q))) = some [(1, v)] := by
+  obtain ⟨a, n, hn, ha, he⟩ := field_facts f hf
+  rw [he, hn]; exact Chartparse.Rx.field_unquoted _ a n p v q ha hp hv hv0 hnq hlast hq
+
+/-- **C10, the decoded value**: if `l0` is the field's line with captured text `v` and every other [Song] line belongs to a
+    *different* shipped field (or to none), the field decodes to `process v` — the other fields' lines have no influence -/
+theorem C10_value (f : String × Str × Nat × Gen.Default) (hf : f ∈ Gen.fields) (lines : List Str) (l0 v : Str)
+    (hmem : l0 ∈ lines) (hv : (reOfField f.1).matchGroups l0 = some [(1, v)])
+    (hothers : ∀ x ∈ lines, x ≠ l0 → (reOfField f.1).matchGroups x = none ∨
+        ∃ f' ∈ Gen.fields, f'.2.1 ≠ f.2.1 ∧ ((reOfField f'.1).matchGroups x).isSome = true) :
+    parseField lines f = process f.2.2.1 v := by
+  apply parseField_present lines f l0 v hmem
+  · rw [hv]; rfl
+  · intro x hx hsome
+    by_cases hne : x = l0
+    · exact hne
+    exfalso
+    rcases hothers x hx hne with h | ⟨f', hf', hname, h'⟩
+    · rw [h] at hsome; cases hsome
+    · cases hm : (reOfField f.1).matchGroups x with
+      | none => rw [hm] at hsome; cases hsome
+      | some c =>
+        cases hm' : (reOfField f'.1).matchGroups x with
+        | none => rw [hm'] at h'; cases h'
+        | some c' => exact C10_noninterference f' f hf' hf hname x c' c hm' hm
+
+/-- **C10, numeric fields become integers**: the decimal rendering of any `n`, quoted or not, decodes to `n` -/
+theorem C10_int (f : String × Str × Nat × Gen.Default) (hf : f ∈ Gen.fields) (hproc : f.2.2.1 = 0) (fuel n : Nat)
+    (hn : n < 10 ^ fuel) (hfuel : 0 < fuel) (v : Str) (hv : v = render fuel n) (l0 : Str) (lines : List Str) (hmem : l0 ∈ lines)
+    (hm : (reOfField f.1).matchGroups l0 = some [(1, v)])
+    (hothers : ∀ x ∈ lines, x ≠ l0 → (reOfField f.1).matchGroups x = none ∨
+        ∃ f' ∈ Gen.fields, f'.2.1 ≠ f.2.1 ∧ ((reOfField f'.1).matchGroups x).isSome = true) :
+    parseField lines f = .ok (.int n) := by
+  rw [C10_value f hf lines l0 v hmem hm hothers, hproc, hv]
+  simp only [process, if_pos]
+  rw [Chartparse.Rx.intOf_render fuel n hn]
+
 /-- non-vacuity: a quoted name with inner quotes and `=`; the int field with Devanagari digits -/
 example : firstMatch (reOfField "name") [cp "  Album = \"x\"", cp "\tName = \"a \"b\" = c\"  "] = some (cp "a \"b\" = c") := by
   decide
 example : (match parseField [cp "Offset = १२"] ("offset", cp "Offset", 0, .int 0) with | .ok (.int 12) => true | _ => false) = true := by
   decide
+
+/-- non-vacuity of `C10_unquoted` / `C10_quoted` / `C10_int`: a member of the table and concrete lines -/
+example : ("offset", cp "Offset", 0, Gen.Default.int 0) ∈ Gen.fields := by decide
+example : (reOfField "offset").matchGroups (cp " Offset = 120 ") = some [(1, cp "120")] := by decide
+example : (reOfField "charter").matchGroups (cp "Charter = \"a \"b\" = Name\"") = some [(1, cp "a \"b\" = Name")] := by decide
 
 end Chartparse.Props.C10
